@@ -2,13 +2,13 @@ package transaction
 
 import (
 	"fmt"
-	"reflect"
 	"time"
 
 	"github.com/go-logr/logr"
 	"github.com/google/uuid"
 	"github.com/ovn-org/libovsdb/cache"
 	"github.com/ovn-org/libovsdb/database"
+	"github.com/ovn-org/libovsdb/mapper"
 	"github.com/ovn-org/libovsdb/model"
 	"github.com/ovn-org/libovsdb/ovsdb"
 	"github.com/ovn-org/libovsdb/updates"
@@ -399,72 +399,84 @@ func (t *Transaction) Wait(table string, timeout *int, where []ovsdb.Condition, 
 	if realTable == nil {
 		return ovsdb.ResultFromError(&ovsdb.NotSupported{})
 	}
-	model, err := dbModel.NewModel(table)
-	if err != nil {
-		return ovsdb.ResultFromError(err)
+
+	// build a model for each of the expected rows
+	expected := make([]*mapper.Info, 0, len(rows))
+	for i := range rows {
+		model, err := dbModel.NewModel(table)
+		if err != nil {
+			return ovsdb.ResultFromError(err)
+		}
+		info, err := dbModel.NewModelInfo(model)
+		if err != nil {
+			return ovsdb.ResultFromError(err)
+		}
+		err = dbModel.Mapper.GetRowData(&rows[i], info)
+		if err != nil {
+			return ovsdb.ResultFromError(err)
+		}
+		expected = append(expected, info)
+	}
+
+	// a row matches an expected row if they are equal in every column of
+	// 'columns' that the expected row provides
+	matches := func(found *mapper.Info, i int) (bool, error) {
+		for _, column := range columns {
+			if _, ok := rows[i][column]; !ok {
+				continue
+			}
+			x, err := expected[i].FieldByColumn(column)
+			if err != nil {
+				return false, err
+			}
+			y, err := found.FieldByColumn(column)
+			if err != nil {
+				return false, err
+			}
+			equal, err := ovsdb.ConditionEqual.Evaluate(y, x)
+			if err != nil || !equal {
+				return false, err
+			}
+		}
+		return true, nil
 	}
 
 Loop:
 	for {
-		var filteredRows []ovsdb.Row
 		foundRowModels, err := t.rowsFromTransactionCacheAndDatabase(table, where)
 		if err != nil {
 			return ovsdb.ResultFromError(err)
 		}
 
-		m := dbModel.Mapper
+		// the selected rows equal the expected rows if every selected row
+		// matches an expected row and every expected row is matched
+		equal := true
+		matched := make([]bool, len(rows))
 		for _, rowModel := range foundRowModels {
 			info, err := dbModel.NewModelInfo(rowModel)
 			if err != nil {
 				return ovsdb.ResultFromError(err)
 			}
-
-			foundMatch := true
-			for _, column := range columns {
-				columnSchema := info.Metadata.TableSchema.Column(column)
-				for _, r := range rows {
-					i, err := dbModel.NewModelInfo(model)
-					if err != nil {
-						return ovsdb.ResultFromError(err)
-					}
-					err = dbModel.Mapper.GetRowData(&r, i)
-					if err != nil {
-						return ovsdb.ResultFromError(err)
-					}
-					x, err := i.FieldByColumn(column)
-					if err != nil {
-						return ovsdb.ResultFromError(err)
-					}
-
-					// check to see if field value is default for given rows
-					// if it is default (not provided) we shouldn't try to compare
-					// for equality
-					if ovsdb.IsDefaultValue(columnSchema, x) {
-						continue
-					}
-					y, err := info.FieldByColumn(column)
-					if err != nil {
-						return ovsdb.ResultFromError(err)
-					}
-					if !reflect.DeepEqual(x, y) {
-						foundMatch = false
-					}
-				}
-			}
-
-			if foundMatch {
-				resultRow, err := m.NewRow(info)
+			foundMatch := false
+			for i := range rows {
+				ok, err := matches(info, i)
 				if err != nil {
 					return ovsdb.ResultFromError(err)
 				}
-				filteredRows = append(filteredRows, resultRow)
+				if ok {
+					matched[i] = true
+					foundMatch = true
+				}
 			}
-
+			equal = equal && foundMatch
+		}
+		for i := range matched {
+			equal = equal && matched[i]
 		}
 
-		if until == "==" && len(filteredRows) == len(rows) {
+		if until == "==" && equal {
 			return ovsdb.OperationResult{}
-		} else if until == "!=" && len(filteredRows) != len(rows) {
+		} else if until == "!=" && !equal {
 			return ovsdb.OperationResult{}
 		}
 
